@@ -233,6 +233,8 @@ func (r *run) protoCPK() *proto {
 		finalize: func(s wobj) (bool, int, error) {
 			pk := rlwe.NewPublicKey(r.p)
 			pr.GenPublicKey(*s.(*multiparty.PublicKeyGenShare), crp, pk)
+			// the accumulator goes on being written (a late share, the next party count): the key handed out must not change
+			pr.AggregateShares(*s.(*multiparty.PublicKeyGenShare), *s.(*multiparty.PublicKeyGenShare), s.(*multiparty.PublicKeyGenShare))
 			return use(pk)
 		},
 		baseline: func() int {
@@ -273,6 +275,9 @@ func (r *run) protoEVK() *proto {
 		finalize: func(s wobj) (bool, int, error) {
 			evk := rlwe.NewEvaluationKey(r.p, r.evkp...)
 			if err := pr.GenEvaluationKey(*s.(*multiparty.EvaluationKeyGenShare), crp, evk); err != nil {
+				return false, 0, err
+			}
+			if err := pr.AggregateShares(*s.(*multiparty.EvaluationKeyGenShare), *s.(*multiparty.EvaluationKeyGenShare), s.(*multiparty.EvaluationKeyGenShare)); err != nil {
 				return false, 0, err
 			}
 			return use(evk)
@@ -341,6 +346,9 @@ func (r *run) protoGal(k int) *proto {
 		finalize: func(s wobj) (bool, int, error) {
 			gk := rlwe.NewGaloisKey(r.p, r.evkp...)
 			if err := pr.GenGaloisKey(*s.(*multiparty.GaloisKeyGenShare), crp, gk); err != nil {
+				return false, 0, err
+			}
+			if err := pr.AggregateShares(*s.(*multiparty.GaloisKeyGenShare), *s.(*multiparty.GaloisKeyGenShare), s.(*multiparty.GaloisKeyGenShare)); err != nil {
 				return false, 0, err
 			}
 			return use(gk)
